@@ -160,15 +160,25 @@ def build(recipe, mode):
     k = recipe[0]
     if k == "leaf":
         _, unit, cat, val = recipe
+        if mode == "a0":   # an Array without values (the result quantity is computed without a single element)
+            from barril.units import Array
+
+            return Array([] if len(unit) % 2 else (), unit, cat)
         return Scalar(val, unit, cat) if mode == "s" else ObtainQuantity(unit, cat)
     if k == "mul":
         return build(recipe[1], mode) * build(recipe[2], mode)
     if k == "div":
         return build(recipe[1], mode) / build(recipe[2], mode)
     if k == "pow":
+        if mode == "a0":   # Arrays have no **: the n-fold product
+            b = build(recipe[1], mode)
+            out = b
+            for _ in range(recipe[2] - 1):
+                out = out * b
+            return out
         return build(recipe[1], mode) ** recipe[2]
-    if k == "rdiv":  # number / x  (Scalars only)
-        return recipe[1] / build(recipe[2], "s")
+    if k == "rdiv":  # number / x  (Scalars and Arrays)
+        return recipe[1] / build(recipe[2], "a0" if mode == "a0" else "s")
     raise ValueError(k)
 
 
@@ -577,6 +587,13 @@ def impl(c, ctx):
             a = Array.CreateWithQuantity(q, [1.0, 2.5])
             out["arepr"] = repr(a)
             out["astr"] = str(a)
+            if t["kind"] == "expr":
+                # the same expression on Arrays WITHOUT values: the strings of the result must be the same
+                try:
+                    a0 = build(t["recipe"], "a0")
+                    out["a0"] = dict(entries=entries_of(a0.GetQuantity()), unit=a0.GetUnit(), repr=repr(a0), str=str(a0))
+                except Exception as e:
+                    out["a0"] = dict(err=err_kind(e), detail=repr(e)[:200])
             return dict(ok=out)
     except Exception as e:
         return dict(err=err_kind(e), detail=repr(e)[:200])
@@ -631,6 +648,15 @@ def agree(c, io, mo, ctx):
             return "str(Scalar): real %r, model suffix %r" % (r["str"], _u(m["suffix"]))
         if r["scalar_getters"] != [r["unit"], r["category"], r["qtype"]]:
             return "Scalar getters differ from its quantity's"
+    if "a0" in r:
+        a0 = r["a0"]
+        if "err" in a0:
+            return "the expression on Arrays without values raised: %s" % a0.get("detail")
+        if a0["entries"] != r["entries"] or a0["unit"] != _u(m["unit"]):
+            return "the expression on Arrays without values gives entries %s / unit %r, on Scalars %s / model unit %r" % (
+                a0["entries"], a0["unit"], r["entries"], _u(m["unit"]))
+        if not a0["repr"].endswith(_u(m["array_repr_tail"])) or not a0["str"].endswith(_u(m["suffix"])):
+            return "repr/str of the Array without values: %r / %r" % (a0["repr"], a0["str"])
     if r["arepr"] != "Array(" + _u(m["array_repr_head"]) + "[1.0, 2.5]" + _u(m["array_repr_tail"]):
         return "repr(Array): real %r" % r["arepr"]
     if r["astr"] != "1 2.5" + _u(m["suffix"]):
@@ -779,6 +805,15 @@ def oracle(c, ctx):
             a = Array.CreateWithQuantity(q, [1.0, 2.5])
             if not repr(a).endswith(", %s)" % unit) or not str(a).endswith(" [%s]" % unit):
                 return dict(inp, clause="repr/str(Array) show the unit", got=[repr(a), str(a)], unit=unit)
+            if t["kind"] == "expr":
+                a0 = build(t["recipe"], "a0")
+                want_u = [[u_, e_] for _c, u_, e_ in ent]
+                got_u = [[u_, e_] for _c, u_, e_ in entries_of(a0.GetQuantity())]
+                if all(is_atomic(u_) for u_, _e in want_u) and (
+                        parse_unit(a0.GetUnit()) != written(merged(want_u)) or not str(a0).endswith(" [%s]" % unit)):
+                    return dict(inp, clause="an Array without values shows the unit of the expression: the same factors "
+                                            "and exponents as the Scalar result", got=[repr(a0), str(a0)],
+                                array_factors=got_u, scalar_factors=want_u, unit=unit)
         except Exception as e:
             return dict(clause="a string getter raised", input=show(c), error=repr(e))
     return None
